@@ -811,6 +811,12 @@ fn generate_single(r: &mut Rng, tier: Tier) -> C16 {
             sink.push(Step::Xfer(1 + r.below(gran.min(4) as u64) as u32));
         }
     }
+    // a big frame accepted in uniform small pieces from its first to its last byte
+    let mut uniform_repeat = None;
+    if big && r.chance(1, 4) {
+        sink = vec![Step::Xfer(*r.pick(&[1u32, 1, 2, 7, 1448, 4096]))];
+        uniform_repeat = Some(1u32 << 20);
+    }
     let npend = sink.iter().filter(|s| **s == Step::Pending).count();
     let cancel_rate = *r.pick(&[1u64, 4, 8]);
     let caller: Vec<Decide> = (0..npend).map(|_| if en_cancel && r.chance(cancel_rate, 16) { Decide::Cancel } else { Decide::Poll }).collect();
@@ -824,7 +830,7 @@ fn generate_single(r: &mut Rng, tier: Tier) -> C16 {
         knob_mid: if r.chance(1, 4) { Some(r.below(3) as u32) } else { None },
         touch: r.chance(1, 3),
         late_cancel: r.chance(1, 3),
-        sink_repeat: gen_repeat(r, shape.history || shape.marathon),
+        sink_repeat: uniform_repeat.unwrap_or_else(|| gen_repeat(r, shape.history || shape.marathon)),
         flush_mid: r.chance(1, 3),
         sink,
         flush_lane: if r.chance(1, 3) {
